@@ -210,6 +210,26 @@ def byte_strings(draw):
 
 from props.ble_layers import C15_BLE_LAYERS  # noqa: E402
 
+
+def fuzz_target(data, R):
+    check_bytes(data, R, nt=False)
+
+
+def run_fuzz(case, R):
+    """Coverage-guided mutation (atheris/libFuzzer) with the same oracle inside the target; a failing input is re-judged here."""
+    import os
+
+    from vlib.fuzzdrv import run_campaign
+    corpus = [] if case["corpus"] == "empty" else [refhap.tlv_enc(c["items"]) for c in list(enum_grid("quick"))[::97]]
+    execs, data, failures = run_campaign(R, "props.c15", "fuzz_target", case["runs"], int(os.environ.get("VERIF_SEED") or 1), corpus)
+    R.sub = max(0, execs - 1)
+    R.nt()
+    R.cls("atheris:" + case["corpus"])
+    if data is not None:
+        check_bytes(data, R)
+        if not R.failures:
+            R.fail("C15.fuzz-unreproducible", f"atheris reported {failures!r:.300} for {data.hex()[:200]} but the oracle passes on replay")
+
 SPEC = Property(
     P, "exploration",
     rule=("item lists over types 0..255 with value lengths from the boundary grid "
@@ -227,6 +247,8 @@ SPEC = Property(
               space="all 16,777,216 byte strings of length 3 (one case = one 2-byte prefix x 256 last bytes)"),
         Layer("bytes-gen", run_bytes, strategy=byte_strings, n={"quick": 6000, "thorough": 200000}, min_nontrivial=500),
         *C15_BLE_LAYERS,
+        Layer("bytes-atheris", run_fuzz, enumerate=lambda tier: iter([{"corpus": "empty", "runs": 1000000}, {"corpus": "seeded", "runs": 1000000}]), tiers=("thorough",),
+              space="two libFuzzer campaigns of 1M executions (empty corpus / corpus of valid encodings), oracle inside the target"),
     ],
     assumptions=["reference TLV8 codec in vlib/refhap.py written from HAP R2 5.15",
                  "how non-canonical input is grouped into items is not constrained (only its per-type byte runs)"],
